@@ -5,6 +5,10 @@ mod ctx;
 #[allow(dead_code)]
 mod docgen;
 #[allow(dead_code)]
+mod rt;
+#[allow(dead_code)]
+mod deserk;
+#[allow(dead_code)]
 mod tree;
 #[allow(dead_code)]
 mod live;
